@@ -52,6 +52,19 @@ def filterForward (fwd : Tok → Bool) (bools : List Tok) : List Tok → List To
       let r := filterForward fwd bools rest
       ((if ok then [a, v] else []) ++ r.1, if r.2.isSome then r.2 else if ok then none else some name)
 
+/-- `splitChdirFlag`: the `-C dir` flag (any spelling, at a flag position) and the other tokens in their order -/
+def splitChdir (bools : List Tok) : List Tok → List Tok × List Tok
+  | [] => ([], [])
+  | [a0] => if (bstr "-C=").isPrefixOf (norm a0) then ([a0], []) else ([], [a0])
+  | a0 :: v :: rest =>
+    let a := norm a0
+    if a == bstr "-C" then ([a0, v], rest)
+    else if (bstr "-C=").isPrefixOf a then ([a0], v :: rest)
+    else if bools.contains a || hasEq a then
+      let r := splitChdir bools (v :: rest); (r.1, a0 :: r.2)
+    else
+      let r := splitChdir bools rest; (r.1, a0 :: v :: r.2)
+
 /-- does `flag.NewFlagSet("", ContinueOnError).Parse([]string{n})` fail?  It does for anything that looks like a
 flag (the empty set defines none; `-h`/`-help` give ErrHelp); a non-flag word, `-` and `--` parse fine. -/
 def parseFails (n : Tok) : Bool :=
